@@ -3,9 +3,14 @@
 package http
 
 import (
+	"context"
+	"errors"
+	"fmt"
 	"net/http"
 	"net/http/httptest"
+	"reflect"
 	"testing"
+	"time"
 
 	"github.com/junioryono/godi/v4"
 )
@@ -102,6 +107,68 @@ func vmBuild(sc *vmScenario, cfg vmCfg) vmApp {
 		}))
 	}
 	return &vmHTTPApp{h: ScopeMiddleware(sc.wrap, opts...)(mux)}
+}
+
+// ---- hand-written: the request's scope has ended before the chain reaches Handle ---------------------------------
+// A middleware closes the scope, or the request context is cancelled (the scope's watcher closes it). Whatever Handle
+// finds in the context, the request is answered by exactly one of: the controller, the scope-error handler, the
+// resolution-error handler - never by nobody.
+type vxCtrl struct{ called *int }
+
+func (c *vxCtrl) Serve(w http.ResponseWriter, r *http.Request) {
+	*c.called++
+	w.WriteHeader(http.StatusOK)
+}
+
+func init() { vmExtra = vmEarlyEnd }
+
+func vmEarlyEnd(v *vmRun) {
+	for variant := 0; variant < 4; variant++ {
+		called, seh, reh := 0, 0, 0
+		c := godi.NewCollection()
+		if err := c.AddScoped(func() *vxCtrl { return &vxCtrl{called: &called} }); err != nil {
+			continue
+		}
+		p, err := c.Build()
+		if err != nil {
+			continue
+		}
+		h := Handle((*vxCtrl).Serve,
+			WithScopeErrorHandler(func(w http.ResponseWriter, r *http.Request, _ error) { seh++; w.WriteHeader(vmStatusSEH) }),
+			WithResolutionErrorHandler(func(w http.ResponseWriter, r *http.Request, _ error) { reh++; w.WriteHeader(vmStatusREH) }))
+		ctx, cancel := context.WithCancel(context.Background())
+		byCancel := variant >= 2
+		mw := WithMiddleware(func(s godi.Scope, r *http.Request) error {
+			if !byCancel {
+				s.Close()
+				return nil
+			}
+			cancel()
+			for i := 0; i < 500; i++ { // the watcher closes the scope
+				if _, e := s.Get(reflect.TypeOf((*vxCtrl)(nil))); errors.Is(e, godi.ErrScopeDisposed) {
+					break
+				}
+				time.Sleep(2 * time.Millisecond)
+			}
+			return nil
+		})
+		app := ScopeMiddleware(p, mw)(h)
+		rec := httptest.NewRecorder()
+		req := httptest.NewRequest(http.MethodGet, "/x", nil).WithContext(ctx)
+		func() {
+			defer func() { recover() }()
+			app.ServeHTTP(rec, req)
+		}()
+		cancel()
+		v.scen++
+		v.cur = []string{fmt.Sprintf("# hand-written: the scope of the request ends before Handle (variant %d: %s)", variant,
+			map[bool]string{false: "a middleware closes it", true: "the request context is cancelled"}[byCancel])}
+		if called+seh+reh != 1 {
+			v.failMon(fmt.Sprintf("%s: a request whose scope had ended before the chain reached Handle was answered by nobody or twice: controller %d, scope-error handler %d, resolution-error handler %d (status %d)", vmName, called, seh, reh, rec.Code))
+		}
+		p.Close()
+		v.stats["early_end"]++
+	}
 }
 
 func TestVerifMw(t *testing.T) { vmMain(t) }
